@@ -101,6 +101,15 @@ def main():
         # confirm determinism: the recorded tape must reproduce the violation
         res2 = spec.execute(case)
         if vclass not in [v[0] for v in res2.violations]:
+            # not a function of (case, tape) alone: does it depend on earlier runs of the same worker process,
+            # i.e. on state the library keeps across computations?
+            hpath = batch.history_replay(prop, spec, tier, s, vclass)
+            if hpath is not None:
+                lines.append(f'VIOLATION property={prop} replay={hpath}')
+                print(f'[{prop}]   class={vclass}: reproduces in a fresh interpreter only after earlier runs of the '
+                      f'same process (history in the replay file): state leaks between computations', flush=True)
+                exit_code = max(exit_code, 1)
+                continue
             print(f'HARNESS-ERROR: violation at seed {s["seed"]} did not reproduce from its recorded tape '
                   f'(nondeterminism in the simulator)')
             exit_code = 2
@@ -128,6 +137,12 @@ def main():
               f'cfg={small["cfg"]} tape={small.get("tape")}', flush=True)
         exit_code = max(exit_code, 1)
     for vclass, msg, case in extra_viols:
+        if vclass.startswith('known-finding:'):
+            kid = vclass.split(':', 1)[1]
+            if kid not in reported and kid in known_by_id:
+                reported.add(kid)
+                known_lines.append(f'KNOWN-FINDING: property={prop} {kid}: {known_by_id[kid]["description"]} [{msg}]')
+            continue
         n_viol += 1
         path = batch.write_replay(prop, case or {}, vclass, msg, f'batch{base_seed}')
         lines.append(f'VIOLATION property={prop} replay={path}')
